@@ -227,3 +227,56 @@ def read_rule(kind):
     check(Implies(Not(expired), o.value == temp), "a live message's value (of the requested zone) is reported")
     check(Implies(expired, len(m._gwy.scheduled) == 1), "an expired message is scheduled for deletion")
     check(Implies(expired, o.value is None), "an expired message's value is not reported")
+
+
+# ---- traffic from other devices is never merged in; deleting one message deletes only that one ----------
+from ramses_rf import dispatcher as D  # noqa: E402
+from ramses_rf.device import Device  # noqa: E402
+
+
+class FakeSrc:
+    def __init__(self, id_):
+        self.id = id_
+
+    def __eq__(self, other):
+        return self.id == other.id
+
+
+@harness("C14")
+def array_fragments_merge_only_within_a_device():
+    """dispatcher.detect_array_fragment: a packet is taken for the second half of the previous
+    array only if it has the same source device, code and verb I, and follows within 3 s."""
+    a, b = sym_dev("this_src"), sym_dev("prev_src")
+    code_t = sym_choice("this_code", ["000A", "22C9", "2309"])
+    code_p = sym_choice("prev_code", ["000A", "22C9", "2309"])
+    gap = sym_int("gap_us", -10 ** 7, 10 ** 7)
+    this = new_object(Message, code=code_t, verb=sym_choice("this_verb", [" I", "RP"]), src=FakeSrc(a), dtm=T0 + td(microseconds=1) * gap)
+    prev = new_object(Message, code=code_p, verb=" I", src=FakeSrc(b), dtm=T0, _pkt=new_object(Frame, _has_array_=sym_bool("prev_is_array")))
+    o = outcome(D.detect_array_fragment, this, prev)
+    check(o.ok, "detect_array_fragment does not raise")
+    check(Implies(o.value, a == b), "a packet from another device is never merged into an array")
+    check(Implies(o.value, And(code_t == code_p, this.verb == " I", gap < 3 * 10 ** 6)), "only the same code, verb I, within 3 s")
+
+
+class FakePktP(FakePkt):
+    def __init__(self, lifespan, ctx, payload):
+        self._lifespan, self._ctx, self.payload = lifespan, ctx, payload
+
+
+@harness("C14")
+def deleting_a_message_deletes_only_it():
+    """_MessageDB._delete_msg(old): a device's newest-by-code slot holding a *different* (newer)
+    message is left alone; the slot holding `old` is emptied."""
+    code = "30C9"
+    old = new_object(Message, code=code, verb=" I", dst=FakeSrc("--:------"), _pkt=FakePktP(td(hours=1), "01", "0107D0"))
+    newer = new_object(Message, code=code, verb=" I", dst=FakeSrc("--:------"), _pkt=FakePktP(td(hours=1), "01", "010834"))
+    holds_old = sym_bool("slot_still_holds_the_old_message")
+    dev = new_object(Device, _gwy=FakeGwy(T0), _msgs_={code: old if holds_old else newer}, _msgz_={code: {" I": {"01": old}}})
+    old.src = newer.src = dev
+    o = outcome(dev._delete_msg, old)
+    check(o.ok, "_delete_msg does not raise")
+    if holds_old:
+        check(code not in dev._msgs_, "the deleted message is gone from the newest-by-code slot")
+    else:
+        check(dev._msgs_.get(code) is newer, "a newer message for the same code is not deleted along with an old one")
+    check("01" not in dev._msgz_[code][" I"], "the deleted message is gone from its (code, verb, context) slot")
